@@ -895,6 +895,8 @@ EVALS = {
     "bcrypt": lambda c: eval_bcrypt(c["engine"], c["ident"], c["cost"], c["password"], c["salt"]),
     "md4_oneshot": lambda c: eval_md4_oneshot(c["data"]) + eval_md4_nt(c["data"]),
     "md4_split": lambda c: eval_md4_split(c["data"], c["cuts"]),
+    "md4_long": lambda c: eval_md4_long(c["nblocks"], c["tail"]),
+    "md4_stream": lambda c: eval_md4_stream(c["mib"]),
     "scrypt": lambda c: eval_scrypt(c["via"], c["secret"], c["salt"], c["n"], c["r"], c["p"], c["keylen"]),
     "scrypt_validate": lambda c: eval_scrypt_validate(c["n"], c["r"], c["p"]),
     "scrypt_keylen": lambda c: eval_scrypt_keylen(c["keylen"]),
@@ -1148,6 +1150,81 @@ def w_bcrypt(acc, task, seed):
     acc.counters[f"bcrypt_cases_confirmed_by_{_BCRYPT_LAST[0]}_oracles"] += 1
 
 
+# ---------------------------------------------------------------------------
+# md4 over LONG messages: the appended length is the bit length modulo 2^64 (two 32-bit words, low word first)
+# ---------------------------------------------------------------------------
+MD4_LONG_COUNTS = (2**23 - 1, 2**23, 2**23 + 1, 2**29 - 1, 2**29, 2**32 - 1, 2**32, 2**32 + 5, 2**55 - 1, 2**55, 2**55 + 3)
+MD4_LONG_TAILS = (0, 1, 55, 56, 63)
+_MD4_LONG_SKIPPED = []
+
+
+def eval_md4_long(nblocks, tail_len, seed=0):
+    """a message of `nblocks` whole blocks + a tail, WITHOUT hashing it: the object is fed two real blocks, then its block
+    counter is set to the wanted number (white box: the three private attributes _count / _state / _buf of
+    passlib.crypto._md4.md4), and the digest is compared with the reference finalisation of the same chaining state"""
+    from mc.refs import md4 as RM
+
+    cls = _pmd4()
+    head = filler(seed, 128, b"md4long")
+    tail = filler(seed, tail_len, b"md4tail")
+    o = cls(head)
+    if not all(hasattr(o, a) for a in ("_count", "_state", "_buf")) or o._count != 2 or o._buf != b"":
+        # the class was restructured: this white-box probe no longer applies (the thorough tier's streamed message does)
+        _MD4_LONG_SKIPPED.append((nblocks, tail_len))
+        return []
+    state = RM.md4_absorb(RM.INITIAL_STATE, head)
+    if tuple(o._state) != state:
+        return [("C11|md4|long:state", f"chaining state after two blocks {tuple(o._state)} differs from the reference {state}")]
+    o._count = nblocks
+    try:
+        o.update(tail)
+        got = o.digest()
+        got2 = o.copy().digest()
+    except Exception as e:  # noqa: BLE001
+        return [(f"C11|md4|long:raises:{_exc(e)}", f"md4 with {nblocks} blocks absorbed + {tail_len} bytes raised {e!r}")]
+    want = RM.md4_finish(state, nblocks, tail)
+    out = []
+    cls_ = "below_2^32_bits" if nblocks * 512 + 8 * tail_len < 2**32 else "2^32..2^64_bits" if nblocks * 512 + 8 * tail_len < 2**64 else "beyond_2^64_bits"
+    if got != want:
+        out.append((f"C11|md4|long:length_field:{cls_}", f"md4 of a message of {nblocks} blocks + {tail_len} bytes ({nblocks * 512 + 8 * tail_len} bits): digest {got.hex()}, "
+                    f"RFC 1320 (length = bit count mod 2^64, low word first) gives {want.hex()}"))
+    elif got2 != want:
+        out.append((f"C11|md4|long:copy:{cls_}", f"a copy() of the md4 object after {nblocks} blocks gives {got2.hex()}, expected {want.hex()}"))
+    return out
+
+
+def eval_md4_stream(mib, seed=0):
+    """thorough tier: the same through the public interface only -- `mib` MiB really fed through update()"""
+    from mc.refs import md4 as RM
+
+    cls = _pmd4()
+    chunk = filler(seed, 1 << 20, b"md4stream")
+    o = cls()
+    state = RM.INITIAL_STATE
+    for _ in range(mib):
+        o.update(chunk)
+        state = RM.md4_absorb(state, chunk)
+    o.update(b"abc")
+    want = RM.md4_finish(state, mib * (1 << 14), b"abc")
+    got = o.digest()
+    if got != want:
+        return [("C11|md4|long:stream", f"md4 of {mib} MiB + 'abc' fed through update() = {got.hex()}, reference {want.hex()}")]
+    return []
+
+
+def w_md4_long(acc, task, seed):
+    if task.get("mib"):
+        _do(acc, {"kind": "md4_stream", "mib": task["mib"]}, ("md4", "stream", task["mib"]))
+        return
+    for n in MD4_LONG_COUNTS:
+        for t in MD4_LONG_TAILS:
+            _do(acc, {"kind": "md4_long", "nblocks": n, "tail": t}, ("md4", "long", n, t))
+    acc.axis("md4_long", "white_box_block_counter" if not _MD4_LONG_SKIPPED else "skipped:class_restructured")
+    if _MD4_LONG_SKIPPED:
+        acc.counters["md4_long_probe_skipped"] += len(_MD4_LONG_SKIPPED)
+        del _MD4_LONG_SKIPPED[:]
+
+
 def w_md4_oneshot(acc, task, seed):
     for n in range(task["lo"], task["hi"]):
         for kind in ("filler", "walk", "utf16"):
@@ -1326,6 +1403,7 @@ WORKERS = {
     "md4.oneshot": w_md4_oneshot,
     "md4.split2": w_md4_split2,
     "md4.split3": w_md4_split3,
+    "md4.long": w_md4_long,
     "scrypt.value": w_scrypt,
     "scrypt.validate": w_scrypt_validate,
     "hmac": w_hmac,
@@ -1401,6 +1479,11 @@ def build_tasks(ctx):
         T.append({"part": "md4.oneshot", "lo": lo, "hi": min(top, lo + 25), "w": 0.1 + lo / 2000})
     for lo in range(0, 131, 5):
         T.append({"part": "md4.split2", "lo": lo, "hi": min(131, lo + 5), "w": 0.3 + lo / 200})
+    T.append({"part": "md4.long", "w": 0.3})
+    if not quick:
+        # a few MiB really streamed through update() in 1 MiB pieces (the 2^32-bit boundary itself would take the
+        # reference ~35 cpu-min: it is covered by the white-box block-counter probe above, see DESIGN C11)
+        T.append({"part": "md4.long", "mib": 6, "w": 30})
     if quick:
         for lo in range(0, 131, 10):
             T.append({"part": "md4.split3", "mode": "boundaries", "lo": lo, "hi": min(131, lo + 10), "w": 0.4})
